@@ -743,10 +743,17 @@ def build_case(group, cfg, box, seed, ai):
     order = lead + bulk + [h["name"] for h in hostile] + trail
     expect = {}
     files = []
+    # every eighth archive carries one ordinary entry of a little more than 4 MiB (after C11-r5m3: tools stage large members
+    # differently from small ones - whatever they stage has to be beneath the output directory as well)
+    large = "zz\\large asset.bin" if ai % 8 == 1 else None
+    if large:
+        order = order[:-len(trail)] + [large] + trail if trail else order + [large]
     for n in order:
         data = content_for(n, "base", seed)
+        if n == large:
+            data = (data[:64] * (4 * 1024 * 1024 // 64 + 1))[:4 * 1024 * 1024 + 17]
         expect[n] = data
-        files.append(refmpq.RefFile(n, data, method=rng.choice((0, 2))))
+        files.append(refmpq.RefFile(n, data, method=2 if n == large else rng.choice((0, 2))))
     arc, _ = refmpq.write_archive(files, version=version, listfile=True, listfile_names=order + ghost_listed)
     base_path = os.path.join(box["in"], "base.mpq")
     with open(base_path, "wb") as f:
@@ -803,7 +810,7 @@ def build_case(group, cfg, box, seed, ai):
     else:
         tool_order = order
     hostile = hostile + ghosts
-    return {"hostile": hostile, "dropped": dropped, "ghosts": [g["name"] for g in ghosts], "bulk": len(bulk), "args": args, "expect": expect, "benign": benign, "lead": lead + (["!p0\\patch only.txt"] if cfg["chain"] else []),
+    return {"hostile": hostile, "dropped": dropped, "ghosts": [g["name"] for g in ghosts], "bulk": len(bulk), "large": bool(large), "args": args, "expect": expect, "benign": benign, "lead": lead + (["!p0\\patch only.txt"] if cfg["chain"] else []),
             "tool_order": tool_order, "out_arg": out_arg, "version": version}
 
 
@@ -856,6 +863,8 @@ def run_case(cli, ai, group, cfg, scratch, seed, keep=False):
         cnt["ghost_names"] = len(case.get("ghosts", []))
         if case.get("bulk"):
             cnt["runs_on_archives_of_more_than_1000_entries"] = 1
+        if case.get("large"):
+            cnt["runs_on_archives_with_an_entry_over_4MiB"] = 1
         before = snapshot(outer)
         cmd = ["strace", "-ff", "-y", "-s", "16384", "-e", "trace=" + ",".join(TRACE), "-o", os.path.join(logdir, "t"), cli] + case["args"]
         try:
